@@ -182,6 +182,7 @@ func runC19(c *Ctx, r *Rec) {
 	}
 	r.count("shared roots", len(roots))
 	r.floor("D2-shared-mutable", 30)
+	checkClassStateHandedOut(c, r, "D2-instances-share-nothing")
 
 	// ---- D3 write-once package variables
 	for _, role := range []string{"agent", "collection", "cdcn", "module"} {
@@ -263,4 +264,76 @@ func checkLockPairing(c *Ctx, r *Rec, rule string, info *types.Info, fd *ast.Fun
 			}
 		}
 	}
+}
+
+// checkClassStateHandedOut: a class object is shared by all instances of its type.  A field of
+// a new instance that is a reference (map, slice, pointer, channel, interface) must not be
+// initialised from a field of the class when the instance later mutates what it refers to:
+// all instances would then work on one unsynchronised object.
+func checkClassStateHandedOut(c *Ctx, r *Rec, rule string) {
+	fw := c.fieldWrites()
+	isRef := func(t types.Type) bool {
+		switch t.Underlying().(type) {
+		case *types.Map, *types.Slice, *types.Pointer, *types.Chan:
+			return true
+		}
+		return false
+	}
+	n := 0
+	for _, role := range []string{"agent", "collection", "cdcn", "module"} {
+		info := c.info(role)
+		for _, fd := range c.allFuncDecls(role) {
+			recv := recvObj(info, fd)
+			if recv == nil || fd.Body == nil {
+				continue
+			}
+			rn := derefNamed(recv.Type())
+			if rn == nil || !isClassType(c, rn) {
+				continue
+			}
+			handed := func(target *types.Var, val ast.Expr, pos token.Pos) {
+				if target == nil || !isRef(target.Type()) {
+					return
+				}
+				se, ok := ast.Unparen(val).(*ast.SelectorExpr)
+				if !ok || selectorField(info, se) == nil || !isObj(info, se.X, recv) {
+					return
+				}
+				n++
+				construct := c.fdName(fd) + "/" + target.Name()
+				if ws := fw[target.Origin()]; len(ws) > 0 {
+					r.fail(rule, construct, c.pos(pos), fmt.Sprintf("the new instance's field %s is set to the class's own %s, and instances change it (%s in %s at %s): every instance of this type works on the one object kept by the shared class, without synchronisation", target.Name(), exprStr(se), ws[0].How, ws[0].In.Name.Name, c.pos(ws[0].Pos)))
+				} else {
+					r.ok(rule, construct, c.pos(pos), "handed out by the class but never changed through the instance")
+				}
+			}
+			ast.Inspect(fd.Body, func(x ast.Node) bool {
+				switch s := x.(type) {
+				case *ast.CompositeLit:
+					if _, isStruct := info.TypeOf(s).Underlying().(*types.Struct); !isStruct {
+						return true
+					}
+					for _, el := range s.Elts {
+						if kv, ok := el.(*ast.KeyValueExpr); ok {
+							if id, ok := kv.Key.(*ast.Ident); ok {
+								if fv, ok := info.Uses[id].(*types.Var); ok && fv.IsField() {
+									handed(fv, kv.Value, kv.Pos())
+								}
+							}
+						}
+					}
+				case *ast.AssignStmt:
+					if len(s.Lhs) == len(s.Rhs) {
+						for i, l := range s.Lhs {
+							if underConstruction(info, fd, l) {
+								handed(selectorField(info, l), s.Rhs[i], s.Pos())
+							}
+						}
+					}
+				}
+				return true
+			})
+		}
+	}
+	r.count("class fields handed to instances", n)
 }
